@@ -19,8 +19,8 @@ def run(ctx):
     ctx.fan(exe, "names", 1)
     ctx.fan(exe, "badtype", 4)
     ctx.fan(exe, "hugebuf", 11, chunk=1, timeout=600)    # 2 GiB .. 8 GiB lazily mapped buffers: refusals must be clean, the 2 GiB + 4 KiB snappy (and, thorough, zlib) round trip must be exact
-    # incompressible 0.5..2 GiB buffers (the compressed form is the large one): zlib at 2^30 and 560 MiB in quick, ten (algorithm, level, size) combinations in thorough
-    ctx.fan(exe, "hugerand", 10 if th else 2, chunk=1, timeout=900, max_workers=3)
+    # incompressible 0.5..2 GiB buffers (the compressed form is the large one): zlib at 2^30 and 560 MiB in quick, eleven (algorithm, level, size) combinations in thorough
+    ctx.fan(exe, "hugerand", 11 if th else 2, chunk=1, timeout=900, max_workers=3)
     s = ctx.stats
     ctx.assumptions += ["a failing compress call is allowed by the property and only counted", "empty buffers are passed as a valid pointer with length 0", "buffers of 2 GiB and more are only probed for lz4/lz4hc/zstd, where the answer is cheap; snappy and zlib: one 2 GiB + 4 KiB zero buffer each and the refusals at 4 GiB", "incompressible buffers above 4 MiB only in the hugerand cases (0.5 .. 2 GiB)"]
     return ctx.finish(
